@@ -159,6 +159,7 @@ func isTypeOfCall(v ssa.Value) (ssa.Value, bool) {
 func rulePanic(c *Ctx) {
 	for _, b := range c.bodies() {
 		l := c.L
+		b.extCallCensus(l, "github.com/evanphx/json-patch")
 		for _, fn := range b.srcFuncs(b.Lib) {
 			nP, nT, nM := 0, 0, 0
 			allInstrs(fn, func(i ssa.Instruction) {
